@@ -27,6 +27,13 @@ Theorem C02_snapshot_is_matching_partial : forall i, si_ghost i = None ->
 Proof. exact snapshot_is_matching. Qed.
 Print Assumptions C02_snapshot_is_matching_partial.
 
+(* (2') the same for what the entries show, for every jqFilter / keepFullObjectsInMemory
+   setting: filter result and (when kept) whole object of the CURRENT cluster state *)
+Theorem C02_view_is_matching_partial : forall i, si_ghost i = None ->
+  P_view i (snapshot_view i) (restart_view i) false = true.
+Proof. exact view_is_matching. Qed.
+Print Assumptions C02_view_is_matching_partial.
+
 Theorem C02_restart_snapshot_is_matching : forall i, P_snap_list i (snapshot_after_restart i) = true.
 Proof. exact restart_snapshot_is_matching. Qed.
 Print Assumptions C02_restart_snapshot_is_matching.
@@ -58,6 +65,6 @@ Proof. exact group_refuted. Qed.
 Print Assumptions C02_refuted_F25.
 
 Example C02_hyp_met :
-  let i := mkSnapIn [1; 2; 1] [3; 3] [(1, 3, 1)] [(OCreate, (2, 3, 1)); (OModify, (1, 3, 2)); (OCreate, (3, 3, 5))] None true in
+  let i := mkSnapIn [1; 2; 1] [3; 3] [(1, 3, 1)] [(OCreate, (2, 3, 1)); (OModify, (1, 3, 2)); (OCreate, (3, 3, 5))] None true true true in
   si_ghost i = None /\ snapshot i = [(1, 3, 2); (2, 3, 1)].
 Proof. vm_compute. split; reflexivity. Qed.
